@@ -93,7 +93,7 @@ type c01Finalize struct {
 	leaf int
 	by   string
 }
-type c01Send struct{}
+type c01Send struct{ b uint64 }
 type c01Restart struct{}
 type c01Role struct {
 	b    uint64
@@ -168,7 +168,11 @@ func (y *c01Sys) Letters(s *c01State) []engine.Letter {
 		}
 	}
 	ls = append(ls, engine.Letter{Name: "Advance(10s)", Data: c01Advance{}})
-	ls = append(ls, engine.Letter{Name: "BankSend(stranger->escrow1,1uxx)", Data: c01Send{}})
+	// plain transfers by a third party: to an existing escrow, and to the addresses that bridges which do
+	// not exist (yet) would have — receiving coins creates a bank account there, nothing more
+	for _, b := range []uint64{1, 2, 9} {
+		ls = append(ls, engine.Letter{Name: fmt.Sprintf("BankSend(stranger->escrow%d,1uxx)", b), Data: c01Send{b}})
+	}
 	ls = append(ls, engine.Letter{Name: "RestartViaGenesis", Data: c01Restart{}})
 	return ls
 }
@@ -238,6 +242,9 @@ func (y *c01Sys) Step(s *c01State, l engine.Letter) (*c01State, string, *engine.
 	case c01Deposit:
 		res = s.w.Deliver(ctx, ophosttypes.NewMsgInitiateTokenDeposit(world.Addr(d.sender).String(), d.b, "l2addr", world.Coin(d.denom, d.amt), nil))
 		addressed = d.b
+		if res.OK() && !(d.b == 1 || (d.b == 2 && s.b2)) {
+			return c, "accepted", viol("deposit-needs-an-existing-bridge", "%s was accepted although bridge %d does not exist: the bridge created under that id later starts with a pre-loaded escrow and a used sequence", l.Name, d.b)
+		}
 		if res.OK() {
 			m := nb()
 			m[d.sender+"/"+d.denom] -= d.amt
@@ -267,12 +274,12 @@ func (y *c01Sys) Step(s *c01State, l engine.Letter) (*c01State, string, *engine.
 			c.rot[d.b-1][d.role] = true
 		}
 	case c01Send:
-		res = s.w.Deliver(ctx, banktypes.NewMsgSend(world.Addr("stranger"), ref.BridgeAddress(1), sdk.NewCoins(world.Coin("uxx", 1))))
-		addressed = 1 // a plain transfer to escrow 1 changes only escrow 1
+		res = s.w.Deliver(ctx, banktypes.NewMsgSend(world.Addr("stranger"), ref.BridgeAddress(d.b), sdk.NewCoins(world.Coin("uxx", 1))))
+		addressed = d.b // a plain transfer to an escrow address changes only that address's balance
 		if res.OK() {
 			m := nb()
 			m["stranger/uxx"]--
-			m["escrow1/uxx"]++
+			m[fmt.Sprintf("escrow%d/uxx", d.b)]++
 		}
 	case c01Finalize:
 		t := y.trees[d.tree]
@@ -416,7 +423,7 @@ func init() {
 					res.Require(res.OutcomeCount(name, k) > 0, "%s: outcome %s never occurred", name, k)
 				}
 			}
-			res.Coverage["alphabet"] = "CreateBridge(2); Deposit(b∈{1,2,9}, denom∈{uxx,uyy}, amt∈{1,2}) + zero amount + unfunded sender; Propose(b, root∈{own tree, other bridge's tree}); Delete(b,1); Advance(period); Finalize(b, leaf∈{own w1, own w2, other bridge's w1}, by∈{bob,stranger}); BankSend(stranger→escrow1); UpdateProposer/UpdateChallenger(b); configuration axis: registration fee ∈ {none, 1uxx}"
+			res.Coverage["alphabet"] = "CreateBridge(2); Deposit(b∈{1,2,9}, denom∈{uxx,uyy}, amt∈{1,2}) + zero amount + unfunded sender; Propose(b, root∈{own tree, other bridge's tree}); Delete(b,1); Advance(period); Finalize(b, leaf∈{own w1, own w2, other bridge's w1}, by∈{bob,stranger}); BankSend(stranger→escrow of bridge 1, of bridge 2 (before and after its creation) and of the never-created bridge 9); UpdateProposer/UpdateChallenger(b); configuration axis: registration fee ∈ {none, 1uxx}"
 			res.Coverage["oracle"] = "ledger model of all account balances compared after every transition (and supply = sum of known accounts); records+escrow of every non-addressed bridge byte-identical; escrow decreases only by a successful finalize of the same bridge whose leaf belongs to that bridge's tree; rejected ⇒ digest unchanged (incl. under-funded escrow); in every state with a final output, every leaf claimed with amount+1, amount+2^64 and 2^64 against an escrow topped up to cover it is refused"
 			res.Assumptions = []string{"two trees with identical user fields that differ only in the bridge id", "bridge id 9 is never created"}
 			return res
